@@ -15,24 +15,44 @@ func init() { register("C10", c10) }
 // never closes its result channel and the caller would block forever.
 const c10Timeout = 4 * time.Second
 
-// case:  ((ref T) (boots (T ...)))
-// obs :  ((fbp ((hang T|F) (panic "msg") (err "msg") (sup ((T|F q) ...))))
-//         (tbe ((hang T|F) (panic "msg") (err "msg") (sup ((T|F q) ...)))))
-// Both algorithms are run on fresh copies of the same trees, the way the commands
-// `gotree compute support fbp` and `gotree compute support tbe` call the library:
-// the bootstrap trees arrive through a buffered channel of tree.Trees that is closed at
-// the end; cpus = 1; for TBE the reference indexes are initialised by the caller and the
-// options are the defaults of the command (no raw tree, no moved-taxa log, cutoff 0.3).
+// case:  ((mode nil|fresh|chain) (ref T) (boots (T ...)) [(alg1 fbp|tbe) (alg2 fbp|tbe) (ref2 T) (boots2 (T ...))])
+//
+//	mode nil (or absent): FBP and TBE, each on fresh copies of (ref, boots), Supporter = nil
+//	                      (what the commands pass);            obs ((fbp RUN) (tbe RUN))
+//	mode fresh:           the same with a fresh support.NewSupporter() per call;
+//	                                                            obs ((fbp RUN) (tbe RUN))
+//	mode chain:           alg1 on (ref, boots) then alg2 on (ref2, boots2) with ONE Supporter
+//	                      value shared by both calls (state carried between computations);
+//	                                                            obs ((first RUN) (second RUN))
+//
+// RUN = ((hang T)) | ((hang F) (panic "msg")) | ((hang F) (err "msg") (sup ((T|F q) ...)) [(progress n)])
+// progress = sup.Progress() after the call (cumulative for a shared Supporter).
+//
+// The library is called the way `gotree compute support fbp|tbe` calls it: the bootstrap trees
+// arrive through a buffered channel of tree.Trees that is closed at the end; cpus = 1; for TBE
+// the reference indexes are initialised by the caller and the options are the defaults of the
+// command (no raw tree, no moved-taxa log, cutoff 0.3).
 func c10(c *Sexp) *Sexp {
 	obs := L()
-	for _, alg := range []string{"fbp", "tbe"} {
-		obs.List = append(obs.List, KV(alg, c10run(alg, c)))
+	switch c.Str("mode") {
+	case "chain":
+		sup := support.NewSupporter()
+		obs.List = append(obs.List, KV("first", c10run(c.Str("alg1"), c.Get("ref"), c.Get("boots"), sup)))
+		obs.List = append(obs.List, KV("second", c10run(c.Str("alg2"), c.Get("ref2"), c.Get("boots2"), sup)))
+	case "fresh":
+		for _, alg := range []string{"fbp", "tbe"} {
+			obs.List = append(obs.List, KV(alg, c10run(alg, c.Get("ref"), c.Get("boots"), support.NewSupporter())))
+		}
+	default:
+		for _, alg := range []string{"fbp", "tbe"} {
+			obs.List = append(obs.List, KV(alg, c10run(alg, c.Get("ref"), c.Get("boots"), nil)))
+		}
 	}
 	return obs
 }
 
-func c10run(alg string, c *Sexp) *Sexp {
-	ref, err := BuildTree(c.Get("ref"))
+func c10run(alg string, refS, bl *Sexp, sup *support.Supporter) *Sexp {
+	ref, err := BuildTree(refS)
 	if err != nil {
 		return L(KV("panic", A("build ref: "+err.Error())))
 	}
@@ -42,7 +62,6 @@ func c10run(alg string, c *Sexp) *Sexp {
 	for i, e := range ref.Edges() {
 		e.SetId(i)
 	}
-	bl := c.Get("boots")
 	if bl == nil || !bl.IsList {
 		return L(KV("panic", A("no boots")))
 	}
@@ -81,13 +100,15 @@ func c10run(alg string, c *Sexp) *Sexp {
 		}()
 		switch alg {
 		case "fbp":
-			r.err = support.FBP(ref, ch, 1, nil)
+			r.err = support.FBP(ref, ch, 1, sup)
 		case "tbe":
 			// cmd/booster.go
 			if r.err = ref.ReinitIndexes(); r.err != nil {
 				return
 			}
-			_, r.err = support.TBE(ref, ch, 1, false, false, false, 0.3, os.Stderr, nil)
+			_, r.err = support.TBE(ref, ch, 1, false, false, false, 0.3, os.Stderr, sup)
+		default:
+			panic("unknown algorithm " + alg)
 		}
 	}()
 	select {
@@ -95,11 +116,15 @@ func c10run(alg string, c *Sexp) *Sexp {
 		if r.panic != "" {
 			return L(KV("hang", B(false)), KV("panic", A(r.panic)))
 		}
-		sup := L()
+		supports := L()
 		for _, e := range ref.Edges() {
-			sup.List = append(sup.List, L(B(e.Right().Tip()), F(e.Support())))
+			supports.List = append(supports.List, L(B(e.Right().Tip()), F(e.Support())))
 		}
-		return L(KV("hang", B(false)), KV("err", A(errStr(r.err))), KV("sup", sup))
+		o := L(KV("hang", B(false)), KV("err", A(errStr(r.err))), KV("sup", supports))
+		if sup != nil {
+			o.List = append(o.List, KV("progress", I(sup.Progress())))
+		}
+		return o
 	case <-time.After(c10Timeout):
 		// the goroutines stay blocked; the reference tree is not read (it may still be written)
 		return L(KV("hang", B(true)))
